@@ -419,7 +419,9 @@ impl<Hd: SizedPayload, El: SizedPayload> TSt<Hd, El> {
                 self.slots[i].h = *b;
             }
         }
-        self.check_all();
+        if !viol::any() {
+            self.check_all();
+        }
     }
 
     fn op_create(&mut self, b: u8, c: u8) {
@@ -558,6 +560,28 @@ impl<Hd: SizedPayload, El: SizedPayload> TSt<Hd, El> {
                             }
                             self.facts.into_thin_wrong_len = true;
                             dropped = true;
+                            // the refusal must still release the Arc it consumed
+                            let left = owners - 1;
+                            if left == 0 {
+                                let m = &self.allocs[ai];
+                                let still = alloc::block_by_seq(m.block.seq).map(|b| b.live).unwrap_or(false);
+                                let hdr_live = tok::info(m.hdr.0).map(|t| t.state == TokState::Live).unwrap_or(false);
+                                if still || hdr_live {
+                                    viol::report(PT, "T.into-thin-panic-release", format!("Arc::into_thin refused a wrong recorded length but did not release the sole-owner Arc it consumed (block still allocated: {}, header alive: {})", still, hdr_live));
+                                }
+                            } else {
+                                for s in self.slots.iter() {
+                                    if s.alloc == ai {
+                                        if let Some(v) = view(&s.h) {
+                                            if let Some(c) = v.count {
+                                                if c != left as usize {
+                                                    viol::report(PT, "T.into-thin-panic-release", format!("Arc::into_thin refused a wrong recorded length; the allocation should have {} owners left but a co-owner reports {}", left, c));
+                                                }
+                                            }
+                                        }
+                                    }
+                                }
+                            }
                             (TH::Gone, "Arc::into_thin -> panic (recorded length mismatch), Arc released")
                         }
                     }
@@ -728,6 +752,10 @@ impl<Hd: SizedPayload, El: SizedPayload> TSt<Hd, El> {
                     self.log(|| format!("with_arc_mut on slot {} (alloc #{}): panic before replacing", i, ai));
                 } else {
                     // replaced: ThinArc must now point at the fresh allocation, the old one lost an owner
+                    let TH::Thin(t) = &self.slots[i].h else { unreachable!() };
+                    if t.heap_ptr() as usize != self.allocs[fa].block.ptr {
+                        viol::report(PT, "T.write-back", format!("with_arc_mut replaced the Arc{} but afterwards the ThinArc points at {:#x} instead of the replacement {:#x}", if which == 3 { " and then panicked" } else { "" }, t.heap_ptr() as usize, self.allocs[fa].block.ptr));
+                    }
                     self.slots[i].alloc = fa;
                     self.allocs[fa].kinds.insert(TK::Thin);
                     self.released(ai);
